@@ -64,7 +64,7 @@ async def items_of_async(result):
     return out
 
 
-def run_decoder(boundary, pieces, charset="utf8"):
+def run_decoder(boundary, pieces, charset="utf8", reuse_buffer=False):
     """Event-level decoder -> items; raises whatever the decoder raises."""
     from baize.multipart import Data, Epilogue, Field, File, MultipartDecoder, NeedData, Preamble, safe_decode
     dec = MultipartDecoder(boundary.encode("latin-1"), charset)
@@ -97,8 +97,13 @@ def run_decoder(boundary, pieces, charset="utf8"):
                 extra["epilogue"] = ev.data
                 done = True
 
+    shared = bytearray() if reuse_buffer else None
     for c in pieces:
-        dec.receive_data(c)
+        if shared is not None:      # a producer refilling ONE buffer (readinto style): the decoder must have copied what it keeps
+            shared[:] = c
+            dec.receive_data(shared)
+        else:
+            dec.receive_data(c)
         drain()
         extra["max_buffer"] = max(extra["max_buffer"], len(dec.buffer))
     if not done:
@@ -107,10 +112,16 @@ def run_decoder(boundary, pieces, charset="utf8"):
     return items, extra
 
 
-def run_parse_stream(boundary, pieces, file_factory=None, charset="utf8", **limits):
+def run_parse_stream(boundary, pieces, file_factory=None, charset="utf8", reuse_buffer=False, **limits):
     from baize.datastructures import UploadFile
     from baize.multipart_helper import parse_stream
-    res = parse_stream(iter(pieces), boundary.encode("latin-1"), charset, file_factory=file_factory or UploadFile, **limits)
+    def refill():
+        shared = bytearray()
+        for c in pieces:
+            shared[:] = c
+            yield shared
+
+    res = parse_stream(refill() if reuse_buffer else iter(pieces), boundary.encode("latin-1"), charset, file_factory=file_factory or UploadFile, **limits)
     return res
 
 
@@ -143,11 +154,16 @@ def run_wsgi_form(ctx, ct, pieces):
     inp = ChunkedInput(pieces)
     peer.environ["wsgi.input"] = inp
     req = Request(peer.environ)
-    form = req.form
+    items = req.form.multi_items()
+    # the application keeps the parsed items, not the request: the uploads must stay readable after the request and the
+    # form mapping are gone (reference counting frees them right here)
+    del req
     try:
-        return items_of_sync(form.multi_items()), inp
+        return items_of_sync(items), inp
     finally:
-        req.close()
+        for _, v in items:
+            if not isinstance(v, str):
+                v.close()
 
 
 def run_asgi_form(ctx, ct, pieces, delays=None):
@@ -161,11 +177,14 @@ def run_asgi_form(ctx, ct, pieces, delays=None):
         req_abs = AbstractRequest("POST", "/", headers=[("content-type", ct), ("content-length", str(len(body)))], body=body)
         peer = AsgiHttpPeer(loop, ctx, ctx.sched, req_abs, msgs, complete_disconnects=False)
         req = Request(peer.scope, peer.receive, peer.send)
-        form = await req.form
+        items = (await req.form).multi_items()
+        del req
         try:
-            return await items_of_async(form.multi_items()), peer.recv_calls
+            return await items_of_async(items), peer.recv_calls
         finally:
-            await req.close()
+            for _, v in items:
+                if not isinstance(v, str):
+                    await v.aclose()
 
     res, loop = run_sim(scenario, ctx.sched, ctx, vcap=100000.0, step_cap=2_000_000)
     return res
